@@ -1,6 +1,6 @@
 import IastModel.Spec.Erase
 /-
-  Vocabulary of the C02 theorems: `strip` (forget every source position), `Sim` (the erased tree is the
+  Vocabulary of the C02 theorems: `strip` (forget every source position), `ESim` (the erased tree is the
   source tree up to positions, and carries the source's own position or none), and `srcOk`, the
   decidable well-formedness of a *source* tree under which `erase` is the identity on it — what a
   parsed input satisfies: no reserved temporary, no mention of the hook namespace, parentheses wider
@@ -61,7 +61,7 @@ def noSp : Node → Prop
 
 /-- `X` is the source tree `e` up to positions, carries the source's own position, and is not the
     `[...x]` shape that `erase` unwraps -/
-def Sim (X e : Node) : Prop := strip X = strip e ∧ spanRel X e ∧ noSp X
+def ESim (X e : Node) : Prop := strip X = strip e ∧ spanRel X e ∧ noSp X
 
 def SimL (Xs es : List Node) : Prop := stripL Xs = stripL es
 
